@@ -515,9 +515,15 @@ def match_finding(findings, prop, viol):
     return None
 
 
+def evidence_dir():
+    """/verif/evidence, unless VERIF_EVIDENCE_DIR redirects it (tools/seeded_run.py does, so that runs against
+    seeded changes never overwrite the evidence of the unchanged tree)."""
+    return os.environ.get("VERIF_EVIDENCE_DIR") or os.path.join(VERIF, "evidence")
+
+
 def write_evidence(prop, ev):
-    os.makedirs(os.path.join(VERIF, "evidence"), exist_ok=True)
-    p = os.path.join(VERIF, "evidence", f"{prop}.json")
+    os.makedirs(evidence_dir(), exist_ok=True)
+    p = os.path.join(evidence_dir(), f"{prop}.json")
     with open(p, "w") as f:
         json.dump(ev, f, indent=1, sort_keys=True, default=str)
     try:
